@@ -171,7 +171,9 @@ def kani_group(pid, gname, group, harnesses, jobs, workdir):
         elif failed:
             entry["status"] = "fail"
         else:
+            # Kani reports a CBMC timeout / kill as a failed harness without any failed check
             entry["status"] = "inconclusive"
+            entry["detail"] = "timeout_or_oom"
         res[hid] = entry
     for h in harnesses:
         if h not in res:
@@ -261,6 +263,7 @@ def main():
     violations = []
     known_lines = []
     inconclusive = []
+    undecided = []
 
     # ---- engine K ----
     harn = plan.get("harnesses", [])
@@ -355,6 +358,12 @@ def main():
                 else:
                     r["status"] = st = "inconclusive"
                     r["detail"] = "counterexample did not reproduce natively: %s" % rp.get("why", "")
+        if st == "inconclusive" and a.tier == "thorough" and r.get("detail") in ("timeout_or_oom",) and hinfo.get(n, {}).get("tier") != "quick":
+            # thorough tier: a harness the solver did not decide inside its time/memory budget is
+            # reported as UNDECIDED (not counted as discharged, listed in the evidence) and does not
+            # make the run fail; the quick subset must always be decided
+            r["status"] = st = "undecided"
+            undecided.append(n)
         if st in ("inconclusive", "tool_error", "unwind", "vacuous"):
             inconclusive.append(n)
         status_counts[st] = status_counts.get(st, 0) + 1
@@ -403,6 +412,8 @@ def main():
     for line in known_lines:
         log(line)
     log("[%s] tier=%s harnesses=%d %s wall=%.0fs" % (pid, a.tier, len(results), status_counts, wall))
+    for n in undecided:
+        log("UNDECIDED property=%s harness=%s (no verdict inside the time/memory budget; not counted as discharged)" % (pid, n))
     if violations:
         for n, p in violations:
             log("VIOLATION property=%s replay=%s" % (pid, p))
